@@ -179,7 +179,7 @@ func cdCookieLetter(num uint16, plen int) *letter {
 }
 
 // invalid tails: 24 bytes that cannot begin a frame.
-func badLetter(name string, first byte, withCookie bool) *letter {
+func badLetter(name, class string, first byte, withCookie bool) *letter {
 	w := pattern(24, first)
 	w[0] = first
 	w[1] = 0x01
@@ -190,7 +190,7 @@ func badLetter(name string, first byte, withCookie bool) *letter {
 		copy(w[4:], []byte{0xDE, 0xAD, 0xBE, 0xEF})
 	}
 
-	return &letter{Name: "bad:" + name, Kind: "invalid", Class: name, Wire: w}
+	return &letter{Name: "bad:" + name, Kind: "invalid", Class: class, Wire: w}
 }
 
 type alphabet struct {
@@ -213,7 +213,7 @@ func buildAlphabet() *alphabet {
 	}
 	a.small = append(a.small, cdCookieLetter(0x7FFF, 16))
 
-	for _, body := range []int{65512, 65532} {
+	for _, body := range []int{65512, 65516, 65532} {
 		a.large = append(a.large, stunLetter(body))
 	}
 	for _, num := range []uint16{0x4000, 0x4ABC, 0x7FFF} {
@@ -222,11 +222,11 @@ func buildAlphabet() *alphabet {
 		}
 	}
 	a.tails = []*letter{
-		badLetter("topbits10", 0x80, false),
-		badLetter("topbits11", 0xC0, false),
-		badLetter("stun-without-cookie", 0x00, false),
-		badLetter("topbits10+cookie", 0x80, true),
-		badLetter("topbits11+cookie", 0xC0, true),
+		badLetter("topbits10", "topbits1x", 0x80, false),
+		badLetter("topbits11", "topbits1x", 0xC0, false),
+		badLetter("stun-without-cookie", "stun-without-cookie", 0x00, false),
+		badLetter("topbits10+cookie", "topbits1x+cookie", 0x80, true),
+		badLetter("topbits11+cookie", "topbits1x+cookie", 0xC0, true),
 	}
 	for _, set := range [][]*letter{a.small, a.large, a.tails} {
 		for _, l := range set {
